@@ -132,6 +132,21 @@ def parse_file(data, bof):
     return out, b""
 
 
+def _rd(path):
+    """the harness's own reads/writes of the library file: opened and closed at once, never through the hooked open"""
+    import io
+    f = getattr(io.open, "__wrapped_orig__", io.open)
+    with f(path, "rb") as fh:
+        return fh.read()
+
+
+def _wr(path, data):
+    import io
+    f = getattr(io.open, "__wrapped_orig__", io.open)
+    with f(path, "wb") as fh:
+        fh.write(data)
+
+
 def code_tie(ctx, rep):
     """The translator tie (see Props/C02code.v): regenerate Gen/UKVCode.v from MOLLI_REPO's ukvfile.py and re-check that every
     translated method body equals its model function.  -> (status, ok, out, where); status 'refused' = the source left the
@@ -163,25 +178,45 @@ def ukv_methods():
     return list(T.METHODS)
 
 
-class track_streams:
-    """While active, every binary file object opened through pathlib.Path.open (what UKVFile uses) is remembered, so
-    that a process death can be played without running any of UKVFile's own code: the buffered bytes are handed to the
-    OS in order and the descriptor goes away."""
-    def __init__(self):
-        self.streams = []
+class open_hook:
+    """While active, every BINARY file object opened on `path` -- through pathlib.Path.open, io.open or the builtin open, whichever
+    the library uses -- is passed through `wrap(fileobj)`.  Nothing else is touched."""
+    def __init__(self, path, wrap):
+        self.path, self.wrap = os.path.realpath(path), wrap
 
     def __enter__(self):
-        import pathlib
-        self.orig = pathlib.Path.open
-        orig, streams = self.orig, self.streams
+        import io, builtins
+        self.orig = io.open
+        orig, me = self.orig, self
 
-        def opener(pth, mode="r", *a, **k):
-            f = orig(pth, mode, *a, **k)
-            if "b" in mode:
-                streams.append(f)
-            return f
-        pathlib.Path.open = opener
+        def opener(file, mode="r", *a, **k):
+            f = orig(file, mode, *a, **k)
+            try:
+                same = "b" in mode and os.path.realpath(os.fspath(file)) == me.path
+            except TypeError:
+                same = False
+            return me.wrap(f) if same else f
+        opener.__wrapped_orig__ = orig
+        io.open = opener
+        builtins.open = opener
         return self
+
+    def __exit__(self, *a):
+        import io, builtins
+        io.open = self.orig
+        builtins.open = self.orig
+
+
+class track_streams(open_hook):
+    """Remembers every file object the library opens on `path`, so that a process death can be played without running any
+    of the library's own code: the buffered bytes are handed to the OS in order and the descriptor goes away."""
+    def __init__(self, path):
+        self.streams = []
+        super().__init__(path, self._keep)
+
+    def _keep(self, f):
+        self.streams.append(f)
+        return f
 
     def die(self):
         for f in self.streams:
@@ -193,15 +228,11 @@ class track_streams:
                 f.close()
         self.streams.clear()
 
-    def __exit__(self, *a):
-        import pathlib
-        pathlib.Path.open = self.orig
-
 
 def drive(path, ops, nh=3, h1=None, h2=b"", b0=b"", init_bytes=None):
     """Runs `ops` on the real implementation.  Returns dict(results=[coq res], ops=[coq op], final=bytes,
     init=bytes, oracle=[(sig, text)])."""
-    with track_streams() as ts:
+    with track_streams(path) as ts:
         return _drive(ts, path, ops, nh, h1, h2, b0, init_bytes)
 
 
@@ -213,8 +244,8 @@ def _drive(ts, path, ops, nh, h1, h2, b0, init_bytes):
     if init_bytes is None:
         UKVFile(path, "x", h1=h1, h2=h2, b0=b0).close()
     else:
-        open(path, "wb").write(init_bytes)
-    init = open(path, "rb").read()
+        _wr(path, init_bytes)
+    init = _rd(path)
     bof = 32 + struct.unpack(">16sHI10x", init[:32])[1] + struct.unpack(">16sHI10x", init[:32])[2]
     header = init[:bof]
     recs0, torn0 = parse_file(init, bof)
@@ -240,7 +271,7 @@ def _drive(ts, path, ops, nh, h1, h2, b0, init_bytes):
                 f.truncate(n)
             hs = [None] * nh
             view = [None] * nh
-            data = open(path, "rb").read()
+            data = _rd(path)
             recs, _ = parse_file(data, bof)
             # oracle: every record complete before the session survives exactly; session records all-or-nothing
             surv = {k: v for k, v, _, _ in recs}
@@ -256,7 +287,7 @@ def _drive(ts, path, ops, nh, h1, h2, b0, init_bytes):
         i = o[1]
         if kind == "open":
             m = o[2]
-            before = open(path, "rb").read() if all(h is None or h.closed for h in hs) else None
+            before = _rd(path) if all(h is None or h.closed for h in hs) else None
             try:
                 if hs[i] is None:
                     hs[i] = UKVFile(path, m)
@@ -396,7 +427,7 @@ def _drive(ts, path, ops, nh, h1, h2, b0, init_bytes):
     for h in hs:
         if h is not None and not h.closed:
             h.close()
-    final = open(path, "rb").read()
+    final = _rd(path)
     if final[:bof] != header:
         viol.append(("C02:header-changed", "file header bytes (h1, comment, descriptor block) changed"))
     recs, torn = parse_file(final, bof)
@@ -599,7 +630,7 @@ def cdrive(path, ops, cfg, fault=None):
     if os.path.exists(path):
         os.remove(path)
     UKVFile(path, "x", h2=b"lib").close()
-    init = open(path, "rb").read()
+    init = _rd(path)
     bof = len(init)
     cols = [Collection(path, UkvCollectionBackend, readonly=ro, bufsize=bs) for bs, ro in cfg]
     cms = [None] * len(cfg)
@@ -764,7 +795,7 @@ def cdrive(path, ops, cfg, fault=None):
                 pass
     for c in cols + all_cols:
         c._backend._write_queue.clear()       # nothing may be flushed by the atexit hook after the observation
-    final = open(path, "rb").read()
+    final = _rd(path)
     if final[:bof] != init:
         viol.append(("C02:header-changed", "file header bytes changed"))
     recs, torn = parse_file(final, bof)
